@@ -7,6 +7,7 @@ import (
 
 	eb "github.com/jilio/ebu"
 	"github.com/jilio/ebu/state"
+	ebsql "github.com/jilio/ebu/stores/sqlite"
 )
 
 // Domain "names": every shape of event type as a real Go type, and the type name each API
@@ -49,9 +50,35 @@ type NSource struct {
 	A int `json:"a"`
 }
 
-func runShape[T any](k int, v T) string {
+// NNum has a custom name that looks like a number (a store must keep it as text)
+type NNum struct {
+	A int `json:"a"`
+}
+
+func (NNum) EventTypeName() string { return "0042" }
+
+type namesStore interface {
+	eb.EventStore
+	eb.SubscriptionStore
+}
+
+func newNamesStore(sqlite bool) (namesStore, func()) {
+	if sqlite {
+		s, err := ebsql.New(":memory:")
+		if err != nil {
+			panic(err)
+		}
+		return s, func() { s.Close() }
+	}
+	return eb.NewMemoryStore(), func() {}
+}
+
+func runShape[T any](k int, v T) string { return runShapeOn(k, v, false) }
+
+func runShapeOn[T any](k int, v T, sqlite bool) string {
 	ctx := context.Background()
-	mem := eb.NewMemoryStore()
+	mem, done := newNamesStore(sqlite)
+	defer done()
 	bus1 := eb.New(eb.WithStore(mem))
 	eb.Publish(bus1, v)
 	evs, _, _ := mem.Read(ctx, eb.OffsetOldest, 0)
@@ -86,7 +113,8 @@ func runShape[T any](k int, v T) string {
 		return fmt.Sprintf("shape %d !subscribe2 %v", k, err)
 	}
 	// typed upcast with T as target
-	mem2 := eb.NewMemoryStore()
+	mem2, done2 := newNamesStore(sqlite)
+	defer done2()
 	bus4 := eb.New(eb.WithStore(mem2))
 	eb.Publish(bus4, NSource{3})
 	bus5 := eb.New(eb.WithStore(mem2))
@@ -139,6 +167,12 @@ func namesDomain(lines []string) []string {
 			out = append(out, runShape(k, NDynP{7}))
 		case 13:
 			out = append(out, runShape(k, &NDynP{7}))
+		case 14:
+			out = append(out, runShape(k, (*NPtr)(nil))) // a typed nil pointer is an event of type *NPtr too
+		case 15:
+			out = append(out, runShapeOn(k, NNum{7}, true)) // on the SQLite store
+		case 16:
+			out = append(out, runShapeOn(k, &NPlain{7}, true))
 		default:
 			out = append(out, "bad-op "+line)
 		}
